@@ -25,8 +25,8 @@ Section Stall.
     forall fuel, bisect N false s s_tol len fuel lo hi = EMaxIts.
   Proof.
     intros (Htol & Hne & Hmid) fuel. induction fuel as [|f IH]; [reflexivity|].
-    cbn [bisect]. fold (midpt lo hi). rewrite Htol.
-    destruct Hmid as [[Em Hl]|[Em Hl]]; rewrite Em, Hl, Hne; cbn [orb andb]; exact IH.
+    cbn [bisect andb negb]. fold (midpt lo hi). rewrite Htol.
+    destruct Hmid as [[Em Hl]|[Em Hl]]; rewrite Em, Hl, Hne; exact IH.
   Qed.
   (* the repaired exit test returns at once *)
   Theorem stall_repaired_returns lo hi : stalled lo hi ->
@@ -34,35 +34,33 @@ Section Stall.
     forall fuel, bisect N true s s_tol len (S fuel) lo hi = IStall (midpt lo hi).
   Proof.
     intros (Htol & Hne & Hmid) Hrefl fuel.
-    cbn [bisect]. fold (midpt lo hi). rewrite Htol.
-    destruct Hmid as [[Em Hl]|[Em Hl]]; rewrite Em, Hl, Hne, !Hrefl; reflexivity.
+    cbn [bisect andb]. fold (midpt lo hi). rewrite Htol.
+    destruct Hmid as [[Em Hl]|[Em Hl]]; rewrite Em, !Hrefl; [reflexivity|].
+    rewrite orb_true_r. reflexivity.
   Qed.
 
-  (* repaired variant: with a measure that decreases whenever the state
-     changes, the loop returns within (measure + 1) iterations *)
+  (* repaired variant: with a measure that decreases whenever the midpoint is
+     strictly inside, the loop returns within (measure + 1) iterations *)
   Variable mu : K -> K -> nat.
   Hypothesis eqb_refl : forall x, eqb N x x = true.
-  Hypothesis eqb_eq : forall x y, eqb N x y = true -> x = y.
-  Hypothesis mu_lo : forall lo hi, midpt lo hi <> lo -> (mu (midpt lo hi) hi < mu lo hi)%nat.
-  Hypothesis mu_hi : forall lo hi, midpt lo hi <> hi -> (mu lo (midpt lo hi) < mu lo hi)%nat.
+  Hypothesis mu_lo : forall lo hi, midpt lo hi <> lo -> midpt lo hi <> hi ->
+                                   (mu (midpt lo hi) hi < mu lo hi)%nat.
+  Hypothesis mu_hi : forall lo hi, midpt lo hi <> lo -> midpt lo hi <> hi ->
+                                   (mu lo (midpt lo hi) < mu lo hi)%nat.
 
   Theorem repaired_returns fuel : forall lo hi, (mu lo hi < fuel)%nat ->
     bisect N true s s_tol len fuel lo hi <> EMaxIts.
   Proof.
     induction fuel as [|f IH]; intros lo hi Hmu; [lia|].
-    cbn [bisect]. fold (midpt lo hi).
+    cbn [bisect andb negb]. fold (midpt lo hi).
     destruct (ltb N (nabs N (sub N (len (midpt lo hi)) s)) s_tol); [discriminate|].
-    destruct (ltb N (len (midpt lo hi)) s).
-    - destruct (eqb N hi (midpt lo hi)); cbn [orb]; [discriminate|].
-      rewrite eqb_refl, andb_true_r.
-      destruct (eqb N (midpt lo hi) lo) eqn:E; [discriminate|].
-      apply IH. assert (midpt lo hi <> lo) by (intros X; rewrite X, eqb_refl in E; discriminate).
-      specialize (mu_lo lo hi H). lia.
-    - destruct (eqb N (midpt lo hi) lo); cbn [orb]; [discriminate|].
-      rewrite eqb_refl. cbn [andb].
-      destruct (eqb N (midpt lo hi) hi) eqn:E; [discriminate|].
-      apply IH. assert (midpt lo hi <> hi) by (intros X; rewrite X, eqb_refl in E; discriminate).
-      specialize (mu_hi lo hi H). lia.
+    destruct (eqb N (midpt lo hi) lo) eqn:E1; cbn [orb]; [discriminate|].
+    destruct (eqb N (midpt lo hi) hi) eqn:E2; [discriminate|].
+    assert (N1 : midpt lo hi <> lo) by (intros X; rewrite X, eqb_refl in E1; discriminate).
+    assert (N2 : midpt lo hi <> hi) by (intros X; rewrite X, eqb_refl in E2; discriminate).
+    destruct (ltb N (len (midpt lo hi)) s); apply IH.
+    - specialize (mu_lo lo hi N1 N2). lia.
+    - specialize (mu_hi lo hi N1 N2). lia.
   Qed.
 End Stall.
 
@@ -86,6 +84,26 @@ Section BisectR.
   Lemma mid_R lo hi : div NumR (add NumR lo hi) (lit NumR 2) = (lo + hi) / 2.
   Proof. reflexivity. Qed.
 
+  Lemma Req_b_ne x y : x <> y -> Req_b x y = false.
+  Proof. intros H. unfold Req_b. destruct (Req_EM_T x y); [contradiction|reflexivity]. Qed.
+
+  (* over R both variants take the same step: no exit test can fire while lo < hi *)
+  Lemma bis_step f lo hi : lo < hi ->
+    bis (S f) lo hi =
+    let t := (lo + hi) / 2 in
+    if Rlt_b (Rabs (len t - s)) s_tol then IRet t
+    else if Rlt_b (len t) s then bis f t hi else bis f lo t.
+  Proof.
+    intros Hlh. cbn [bisect]. rewrite mid_R. cbv zeta. set (t := (lo + hi) / 2).
+    assert (Ht : lo < t < hi) by (unfold t; lra).
+    rewrite Rabs_b. cbn [ltb sub eqb NumR].
+    destruct (Rlt_b (Rabs (len t - s)) s_tol); [reflexivity|].
+    rewrite (Req_b_ne t lo), (Req_b_ne t hi) by lra. cbn [orb]. rewrite andb_false_r.
+    destruct (Rlt_b (len t) s).
+    - rewrite (Req_b_ne hi t) by lra. rewrite andb_false_r. reflexivity.
+    - rewrite (Req_b_ne t lo) by lra. rewrite andb_false_r. reflexivity.
+  Qed.
+
   (* any len: what a returned value satisfies *)
   Theorem bisect_result fuel : forall lo hi, lo < hi ->
     match bis fuel lo hi with
@@ -96,21 +114,13 @@ Section BisectR.
     end.
   Proof.
     induction fuel as [|f IH]; intros lo hi Hlh; [exact I|].
-    cbn [bisect]. rewrite mid_R. set (t := (lo + hi) / 2).
+    rewrite bis_step by assumption. cbv zeta. set (t := (lo + hi) / 2).
     assert (Ht : lo < t < hi) by (unfold t; lra).
-    rewrite Rabs_b. cbn [ltb sub NumR].
     destruct (Rlt_b (Rabs (len t - s)) s_tol) eqn:E.
     - apply Rlt_b_true in E. auto.
-    - cbn [eqb NumR].
-      destruct (Rlt_b (len t) s) eqn:E2.
-      + assert (Req_b hi t = false) as -> by (unfold Req_b; destruct (Req_EM_T hi t); [lra|reflexivity]).
-        assert (Req_b t lo = false) as -> by (unfold Req_b; destruct (Req_EM_T t lo); [lra|reflexivity]).
-        rewrite andb_false_r. cbn [orb andb].
-        specialize (IH t hi (proj2 Ht)). destruct (bis f t hi); auto. destruct IH; split; auto; lra.
-      + assert (Req_b t lo = false) as -> by (unfold Req_b; destruct (Req_EM_T t lo); [lra|reflexivity]).
-        assert (Req_b t hi = false) as -> by (unfold Req_b; destruct (Req_EM_T t hi); [lra|reflexivity]).
-        rewrite andb_false_r. cbn [orb].
-        specialize (IH lo t (proj1 Ht)). destruct (bis f lo t); auto. destruct IH; split; auto; lra.
+    - destruct (Rlt_b (len t) s).
+      + specialize (IH t hi (proj2 Ht)). destruct (bis f t hi); auto. destruct IH; split; auto; lra.
+      + specialize (IH lo t (proj1 Ht)). destruct (bis f lo t); auto. destruct IH; split; auto; lra.
   Qed.
 
   (* monotone len: the invariant, and termination under a Lipschitz bound *)
@@ -145,8 +155,8 @@ Section BisectR.
     exists t, bis fuel lo hi = IRet t.
   Proof.
     induction n as [|n IH]; intros fuel lo hi Hs Hlh Hn Hf;
-      (destruct fuel as [|f]; [lia|]); cbn [bisect]; rewrite mid_R; set (t := (lo + hi) / 2);
-      assert (Ht : lo < t < hi) by (unfold t; lra); rewrite Rabs_b; cbn [ltb sub NumR].
+      (destruct fuel as [|f]; [lia|]); rewrite bis_step by assumption; cbv zeta;
+      set (t := (lo + hi) / 2); assert (Ht : lo < t < hi) by (unfold t; lra).
     - (* the very first midpoint already meets the tolerance *)
       assert (B : Rabs (len t - s) < s_tol).
       { pose proof (len_mono lo t (Rlt_le _ _ (proj1 Ht))). pose proof (len_mono t hi (Rlt_le _ _ (proj2 Ht))).
@@ -154,7 +164,6 @@ Section BisectR.
         apply Rabs_def1; lra. }
       apply Rlt_b_true in B. rewrite B. eauto.
     - destruct (Rlt_b (Rabs (len t - s)) s_tol) eqn:E; [eauto|].
-      cbn [eqb NumR].
       assert (Hn' : Lam * (hi - t) / 2 ^ n < s_tol /\ Lam * (t - lo) / 2 ^ n < s_tol).
       { cbn [pow] in Hn. unfold t.
         replace (Lam * (hi - (lo + hi) / 2) / 2 ^ n) with (Lam * (hi - lo) / (2 * 2 ^ n))
@@ -162,14 +171,8 @@ Section BisectR.
         replace (Lam * ((lo + hi) / 2 - lo) / 2 ^ n) with (Lam * (hi - lo) / (2 * 2 ^ n))
           by (field; apply pow_nonzero; lra). auto. }
       destruct (Rlt_b (len t) s) eqn:E2.
-      + assert (Req_b hi t = false) as -> by (unfold Req_b; destruct (Req_EM_T hi t); [lra|reflexivity]).
-        assert (Req_b t lo = false) as -> by (unfold Req_b; destruct (Req_EM_T t lo); [lra|reflexivity]).
-        rewrite andb_false_r. cbn [orb andb]. apply Rlt_b_true in E2.
-        apply IH; try lra; try lia.
-      + assert (Req_b t lo = false) as -> by (unfold Req_b; destruct (Req_EM_T t lo); [lra|reflexivity]).
-        assert (Req_b t hi = false) as -> by (unfold Req_b; destruct (Req_EM_T t hi); [lra|reflexivity]).
-        rewrite andb_false_r. cbn [orb]. apply Rlt_b_false in E2.
-        apply IH; try lra; try lia.
+      + apply Rlt_b_true in E2. apply IH; try lra; try lia.
+      + apply Rlt_b_false in E2. apply IH; try lra; try lia.
   Qed.
 End BisectR.
 
@@ -286,7 +289,7 @@ End InvSeg.
 
 (* ---------------- the Path branch ---------------- *)
 Section InvPath.
-  Variable rep : bool.
+  Variable rep prep : bool.
   Variable t2T : nat -> R -> R.
   Variables s s_tol : R.
   Variable maxits : nat.
@@ -298,11 +301,19 @@ Section InvPath.
     | _, _ => lsum
     end.
 
+  (* over R the clamp min(s - lsum, len_k) of the repaired code is the identity *)
+  Lemma clamp_R lsum Lk : lsum <= s <= lsum + Lk ->
+    (if prep then nmin NumR (sub NumR s lsum) Lk else sub NumR s lsum) = s - lsum.
+  Proof.
+    intros H. destruct prep; [|reflexivity]. unfold nmin. cbn [ltb sub NumR].
+    assert (Rlt_b Lk (s - lsum) = false) as -> by (apply Rlt_b_false; lra). reflexivity.
+  Qed.
+
   (* the value returned by the search is t2T k (result on segment k at s - cum_k),
      k the first segment whose cumulative interval contains s; falling through
      returns 1 *)
   Theorem path_search_spec segs : forall k0 lsum,
-    let r := path_search NumR rep t2T segs k0 lsum s s_tol maxits in
+    let r := path_search NumR rep prep t2T segs k0 lsum s s_tol maxits in
     (exists j p, nth_error segs j = Some p /\
        let c := cumL segs lsum j in
        c <= s <= c + seg_L p /\
@@ -323,7 +334,7 @@ Section InvPath.
       + apply andb_prop in E as [E1 E2]. apply Rle_b_true in E1, E2.
         left. exists 0%nat, (il, ln, Lk). cbn [nth_error cumL seg_L snd fst].
         repeat split; auto. { intros i q Hi; lia. }
-        rewrite Nat.add_0_r. reflexivity.
+        rewrite Nat.add_0_r. rewrite clamp_R by lra. reflexivity.
       + assert (NE : ~ (lsum <= s <= lsum + Lk)).
         { intros [A B]. apply Rle_b_true in A, B. rewrite A, B in E. discriminate. }
         destruct (IH (S k0) (lsum + Lk)) as [(j & p & Hn & Hc & Hf & Hr)|[Hf Hr]].
@@ -338,3 +349,65 @@ Section InvPath.
           -- apply (Hf i q Hq).
   Qed.
 End InvPath.
+
+(* ================= any ordered carrier: the repaired Path branch is total ======
+   With the clamp min(s - lsum, len_k) the segment never sees an s outside
+   [0, len_k]: no ValueError, no AssertionError, for every s — under the order
+   facts below, which hold in R and for the non-NaN binary64 numbers. *)
+Section PathTotal.
+  Context {K : Type} (N : Num K).
+  Hypothesis leb_refl : forall x, leb N x x = true.
+  Hypothesis leb_total : forall x y, ltb N y x = false -> leb N x y = true.
+  Hypothesis ltb_leb : forall x y, ltb N x y = true -> leb N x y = true.
+  Hypothesis sub_nonneg : forall a b, leb N a b = true -> leb N (zero N) (sub N b a) = true.
+  Variables (rep : bool) (t2T : nat -> K -> K) (s s_tol : K) (maxits : nat).
+
+  Lemma seg_in_range il len Lk s' :
+    ltb N (zero N) Lk = true -> leb N (zero N) s' = true -> leb N s' Lk = true ->
+    inv_arclength_seg N rep il len Lk s' s_tol maxits <> EValueError /\
+    inv_arclength_seg N rep il len Lk s' s_tol maxits <> EAssert.
+  Proof.
+    intros HL H0 H1. unfold inv_arclength_seg. rewrite HL, H0, H1. cbn [negb andb].
+    destruct (eqb N s' (zero N)); [split; discriminate|].
+    destruct (eqb N s' Lk); [split; discriminate|].
+    destruct il; [split; discriminate|].
+    generalize (zero N) (one N). induction maxits as [|f IH]; intros lo hi; cbn [bisect];
+      [split; discriminate|].
+    destruct (ltb N _ s_tol); [split; discriminate|].
+    destruct (rep && _); [split; discriminate|].
+    destruct (negb rep && _); [split; discriminate|]. apply IH.
+  Qed.
+
+  Theorem path_repaired_total segs : forall k lsum,
+    Forall (fun p : @pseg K => ltb N (zero N) (snd p) = true) segs ->
+    path_search N rep true t2T segs k lsum s s_tol maxits <> EValueError /\
+    path_search N rep true t2T segs k lsum s s_tol maxits <> EAssert.
+  Proof.
+    induction segs as [|[[il ln] Lk] r IH]; intros k lsum HF; cbn [path_search];
+      [split; discriminate|].
+    inversion HF as [|? ? HL HF']; subst. cbn [snd] in HL.
+    destruct (leb N lsum s && leb N s (add N lsum Lk)) eqn:E; [|apply IH; assumption].
+    apply andb_prop in E as [E1 E2].
+    set (s' := nmin N (sub N s lsum) Lk).
+    assert (R0 : leb N (zero N) s' = true /\ leb N s' Lk = true).
+    { unfold s', nmin. destruct (ltb N Lk (sub N s lsum)) eqn:C.
+      - split; [apply ltb_leb; exact HL|apply leb_refl].
+      - split; [apply sub_nonneg; exact E1|apply leb_total; exact C]. }
+    destruct (seg_in_range il ln Lk s' HL (proj1 R0) (proj2 R0)) as [A B].
+    destruct (inv_arclength_seg N rep il ln Lk s' s_tol maxits); split; try discriminate; auto.
+  Qed.
+End PathTotal.
+
+(* the order facts hold over R: the theorem is not vacuous *)
+Theorem path_repaired_total_R rep t2T s s_tol maxits segs k lsum :
+  Forall (fun p : @pseg R => 0 < snd p) segs ->
+  path_search NumR rep true t2T segs k lsum s s_tol maxits <> EValueError /\
+  path_search NumR rep true t2T segs k lsum s s_tol maxits <> EAssert.
+Proof.
+  intros HF. apply path_repaired_total.
+  - intros x. apply Rle_b_true. lra.
+  - intros x y H. apply Rlt_b_false in H. apply Rle_b_true. lra.
+  - intros x y H. apply Rlt_b_true in H. apply Rle_b_true. lra.
+  - intros a b H. apply Rle_b_true in H. apply Rle_b_true. cbn. lra.
+  - eapply Forall_impl; [|exact HF]. intros p Hp. apply Rlt_b_true. exact Hp.
+Qed.
